@@ -114,7 +114,7 @@ func cmdCheck(args []string) int {
 		return 2
 	}
 	loadS := time.Since(t0).Seconds()
-	timeout := 20
+	timeout := 30
 	if tier == "thorough" {
 		timeout = 120
 	}
@@ -187,7 +187,25 @@ func cmdCheck(args []string) int {
 	}
 	// canaries: deliberately false contracts that must NOT verify
 	canaryObls, canaryNames := e.CanaryObligations(prop)
-	results := solveAll(append(append([]*Obligation{}, obls...), canaryObls...), scratch, timeout, 16)
+	allObls := append(append([]*Obligation{}, obls...), canaryObls...)
+	results := solveAll(allObls, scratch, timeout, 12)
+	// undecided answers are retried with a larger budget and little parallelism: a solver that
+	// was merely starved of CPU must not turn into an alarm
+	var retry []*Obligation
+	var retryIdx []int
+	for i, r := range results {
+		if r.Res.Status == "unknown" && !strings.HasPrefix(r.Obl.Name, "canary:") {
+			retry = append(retry, r.Obl)
+			retryIdx = append(retryIdx, i)
+		}
+	}
+	if len(retry) > 0 && len(retry) <= 40 {
+		rr := solveAll(retry, scratch, timeout*4, 3)
+		for j, r := range rr {
+			r.Res.Tried = append(results[retryIdx[j]].Res.Tried, r.Res.Tried...)
+			results[retryIdx[j]] = r
+		}
+	}
 	mainRes := results[:len(obls)]
 	canRes := results[len(obls):]
 
